@@ -129,7 +129,7 @@ func (cr *churnRun) one(mode string, rng *rand.Rand) (closedByServer bool, mustC
 			}
 		}
 	}
-	if mode == "quit-hold" {
+	if mode == "quit-hold" || mode == "quit-chatter" {
 		// the client does not close after QUIT: the server has to release the connection on its own
 		defer func() { cr.hmu.Lock(); cr.held = append(cr.held, c); cr.hmu.Unlock() }()
 	} else {
@@ -158,18 +158,15 @@ func (cr *churnRun) one(mode string, rng *rand.Rand) (closedByServer bool, mustC
 		c.Write(request("QUIT"))
 		return readEOF(c), true
 	case "quit-chatter":
-		// the client goes on sending after QUIT (a heartbeat, a pipeline that was already on its way): the server still has
-		// to let go of the connection
+		// the client goes on sending after QUIT (a heartbeat, a pipeline that was already on its way) and keeps its socket:
+		// the server still has to let go of the connection, while the chatter lasts (it ends when the harness closes the socket
+		// after the batch has been observed)
 		c.Write(request("QUIT"))
-		stop := make(chan struct{})
-		defer close(stop)
 		go func() {
 			for {
-				select {
-				case <-stop:
+				time.Sleep(150 * time.Millisecond)
+				if _, err := c.Write(request("PING")); err != nil {
 					return
-				case <-time.After(150 * time.Millisecond):
-					c.Write(request("PING"))
 				}
 			}
 		}()
